@@ -30,7 +30,8 @@ LEAN_NAMESPACES = ['MpycV.C31']
 REQUIRED_THEOREMS = ['getitem_refines', 'setitem_refines', 'delitem_refines', 'insert_refines', 'pop_refines',
                      'count_refines', 'contains_refines', 'find_refines', 'index_refines', 'remove_refines',
                      'sort_refines', 'lt_refines', 'cmp_refines', 'eq_refines', 'step_refines',
-                     'history_refines', 'only_len_public', 'unitVector_spec']
+                     'history_refines', 'only_len_public', 'unitVector_spec', 'shared_index_parallel',
+                     'shared_index_parallel_del', 'pop_then_insert_same_index']
 RULE = ('case = one operation history on one secure list: element type from {SecInt(16), SecInt(32), SecFxp(16,4), '
         'SecFxp(32,8)} (fixed-point lists mix integral and non-integral values), initial length 0..6, then up to 12 (quick) / 40 '
         '(thorough) operations drawn from get/set/del/insert/pop with public int (incl. negative and out-of-range), secret number, '
@@ -39,7 +40,11 @@ RULE = ('case = one operation history on one secure list: element type from {Sec
         'prefixes/extensions/perturbations/empty lists; list length kept <= 8; error injections: wrong-length index vectors, '
         'non-integral fixed-point index, secret index into an empty list, slice step 0, extended-slice size mismatch. '
         'distinct = distinct (type, init, ops) tuples; non-trivial = at least one secret-key or comparison/find operation. '
-        'Contents are opened and compared after EVERY step.')
+        '35 % of the histories run on TWO parallel lists; with probability 0.6 a keyed operation re-uses the very same index '
+        'OBJECT (secindex / list of bits) as the previous keyed operation where its public length fits (insert/insert and del/del '
+        'on parallel lists, pop/insert, get after insert, set after del). After every keyed call the caller\'s index object is '
+        'opened and must still be the value it was built from (operations do not corrupt their arguments). '
+        'Contents of the list operated on (and of the other list) are opened and compared after EVERY step.')
 EXPLANATION = ''
 ASSUMPTIONS = [
     'value layer: a secure number is the integer (scaled integer for secfxp) its sharing encodes; runtime primitives '
@@ -125,10 +130,16 @@ class Gen:
         step = sh.choice([None, None, 1, 1, 2, 3, -1, -1, -2, 0 if sh.random() < 0.15 else 2])
         return [end(), end(), step]
 
-    def op(self, cur):
-        """one operation for a list with current contents `cur` (only len(cur) and public outcomes steer `sh`)"""
+    def op(self, cur, force=None):
+        """one operation for a list with current contents `cur` (only len(cur) and public outcomes steer `sh`);
+        force = (kind, key spec): a keyed operation re-using an existing index object"""
         sh, se = self.sh, self.se
         n = len(cur)
+        if force is not None:
+            op = {'op': force[0], 'key': force[1], 'reuse': True}
+            if force[0] in ('set', 'insert'):
+                op['v'] = self.val()
+            return op
         kinds = ['get', 'get', 'set', 'set', 'del', 'insert', 'insert', 'pop', 'append', 'extend', 'add', 'radd', 'mul',
                  'imul', 'copy', 'count', 'contains', 'find', 'find', 'index', 'remove', 'sort', 'cmp', 'cmp', 'cmp',
                  'getsl', 'setsl', 'delsl']
@@ -220,15 +231,43 @@ def gen_history(shape_seed, secret_seed, tname, n_ops, present_only=False):
     se = random.Random(f'se:{secret_seed}')
     g = Gen(sh, se, tname, present_only)
     init = g.vals(sh.choice([0, 1, 2, 3, 3, 4, 5, 6]))
-    cur = list(init)
+    h = {'type': tname, 'init': init}
+    curs = {1: list(init)}
+    if sh.random() < 0.35:       # a companion list of the same length (parallel lists sharing index objects)
+        h['init2'] = g.vals(len(init))
+        curs[2] = list(h['init2'])
     ops = []
+    last = None                  # key spec of the last index OBJECT handed to the list (secindex / list of bits)
     for _ in range(n_ops):
-        op = g.op(cur)
-        res, cur = py_apply(cur, op, g.f)
+        which = 2 if 2 in curs and sh.random() < 0.45 else 1
+        force = None
+        if last is not None and sh.random() < 0.6:
+            # re-use the very same index object where its (public) length fits: insert/insert, del/del on parallel
+            # lists, pop/insert, get after insert, set after del, ...
+            veclen = last[1] + len(last[2]) if last[0] == 'u' else len(last[1])
+            cands = []
+            for w, c in sorted(curs.items()):
+                if veclen == len(c) and veclen > 0:
+                    cands += [(w, k) for k in ('get', 'set', 'del', 'pop')]
+                if veclen == len(c) + 1 and len(c) < MAXLEN:
+                    cands.append((w, 'insert'))
+            if cands:
+                which, kind = sh.choice(cands)
+                force = (kind, last)
+        op = g.op(curs[which], force)
+        if which == 2:
+            op['on'] = 2
+        res, curs[which] = py_apply(curs[which], op, g.f)
         ops.append(op)
         if op.get('oob') and op['op'] != 'get' and op['key'] != ['u', 0, []]:
             break      # contents after an out-of-range secret write are outside the property: end of history
-    return {'type': tname, 'init': init, 'ops': ops}
+        if 'key' in op and op['key'][0] in ('u', 'l') and not op.get('oob') and not op.get('expect_err') and \
+                key_pos(op['key'], g.f) is not None:
+            last = op['key']
+        elif 'key' in op and op['key'][0] != 'p':
+            last = None
+    h['ops'] = ops
+    return h
 
 
 def rename_values(h, seed):
@@ -258,7 +297,10 @@ def rename_values(h, seed):
         if 'other' in op:
             op['other'] = gl(op['other'])
         ops.append(op)
-    return {'type': h['type'], 'init': gl(h['init']), 'ops': ops}
+    h2 = {'type': h['type'], 'init': gl(h['init']), 'ops': ops}
+    if 'init2' in h:
+        h2['init2'] = gl(h['init2'])
+    return h2
 
 
 # ---------------------------------------------------------------------------------------------
@@ -424,7 +466,8 @@ def make_type(mpc, tname):
 
 
 async def real_history(mpc, h, stop_after=None):
-    """run one history on the real seclist; -> list of (result, contents, trace, invariant_ok) per step"""
+    """run one history on the real seclist(s); per step -> (result, contents of the list operated on, trace,
+    '' or a message (class invariant broken / an argument object was modified), contents of the other list or None)"""
     l, f = TYPES[h['type']]
     u = 1 << f
     st = make_type(mpc, h['type'])
@@ -438,7 +481,7 @@ async def real_history(mpc, h, stop_after=None):
     def mk(vs):
         return [sec(v) for v in vs]
 
-    def key(k):
+    def key_new(k):
         if k[0] == 'p':
             return k[1]
         if k[0] == 's':
@@ -472,26 +515,57 @@ async def real_history(mpc, h, stop_after=None):
     async def openl(x):
         return [scaled(v) for v in await mpc.output(list(x))] if len(x) else []
 
-    s = seclist(mk(h['init']), st)
+    lists = {1: seclist(mk(h['init']), st)}
+    if 'init2' in h:
+        lists[2] = seclist(mk(h['init2']), st)
     out = []
+    keyobj, keyspec = None, None      # the last index OBJECT built; re-used (same object) by ops marked 'reuse'
+
+    def key(k, reuse=False):          # noqa: F811
+        nonlocal keyobj, keyspec
+        if not (reuse and keyspec == k and keyobj is not None):
+            keyobj, keyspec = key_new(k), k
+        return keyobj
+
+    async def key_intact():
+        """the caller's index object after the call: still the value it was built from?"""
+        k, o = keyspec, keyobj
+        if k is None or k[0] == 'p':
+            return ''
+        if k[0] == 's':
+            got = scaled(await mpc.output(o))
+            return '' if got == k[1] else f'secret index argument changed from {k[1]} to {got}'
+        if k[0] == 'u':
+            bits, off = k[2], k[1]
+            vals = o.value
+            if o.offset != off:
+                return f'secindex offset changed from {off} to {o.offset}'
+        else:
+            bits, vals = k[1], o
+        got = [int(v) for v in await mpc.output(list(vals))] if len(vals) else []
+        return '' if got == list(bits) else f'index vector argument {showl(bits)} was modified by the call: now {showl(got)}'
+
     for k, op in enumerate(h['ops']):
         kind = op['op']
+        which = op.get('on', 1)
+        s = lists[which]
+        argl = None
         t0 = len(TRACE)
         TRACE_ON[0] = True
         try:
             if kind == 'get':
-                res = ('v', await openv(s[key(op['key'])]))
+                res = ('v', await openv(s[key(op['key'], op.get('reuse'))]))
             elif kind == 'set':
-                s[key(op['key'])] = sec(op['v']) if k % 2 else num(op['v'])
+                s[key(op['key'], op.get('reuse'))] = sec(op['v']) if k % 2 else num(op['v'])
                 res = ('none',)
             elif kind == 'del':
-                del s[key(op['key'])]
+                del s[key(op['key'], op.get('reuse'))]
                 res = ('none',)
             elif kind == 'insert':
-                s.insert(key(op['key']), sec(op['v']) if k % 2 else num(op['v']))
+                s.insert(key(op['key'], op.get('reuse')), sec(op['v']) if k % 2 else num(op['v']))
                 res = ('none',)
             elif kind == 'pop':
-                res = ('v', await openv(s.pop(key(op['key']))))
+                res = ('v', await openv(s.pop(key(op['key'], op.get('reuse')))))
             elif kind == 'getsl':
                 r = s[slice(*op['sl'])]
                 assert isinstance(r, seclist) and r.sectype is st
@@ -508,7 +582,8 @@ async def real_history(mpc, h, stop_after=None):
                 res = ('none',)
             elif kind == 'extend':
                 if k % 3 == 0:
-                    s.extend(mk(op['vs']))
+                    argl = mk(op['vs'])
+                    s.extend(argl)
                 elif k % 3 == 1:
                     s += seclist(mk(op['vs']), st)
                 else:
@@ -549,6 +624,7 @@ async def real_history(mpc, h, stop_after=None):
                 res = ('none',)
             elif kind == 'cmp':
                 y = [num(v) for v in op['other']] if op['plain'] else seclist(mk(op['other']), st)
+                argl = y
                 o = op['cmp']
                 r = (s < y if o == 'lt' else s <= y if o == 'le' else s == y if o == 'eq' else
                      s >= y if o == 'ge' else s > y if o == 'gt' else s != y)
@@ -560,8 +636,15 @@ async def real_history(mpc, h, stop_after=None):
         finally:
             TRACE_ON[0] = False
         tr = TRACE[t0:]
-        inv = isinstance(s, seclist) and s.sectype is st and all(isinstance(a, st) for a in s)
-        out.append((res, await openl(s), list(tr), inv))
+        lists[which] = s
+        inv = '' if isinstance(s, seclist) and s.sectype is st and all(isinstance(a, st) for a in s) else \
+            "seclist invariant broken (items not all of the list's sectype)"
+        if not inv and 'key' in op:
+            inv = await key_intact()
+        if not inv and argl is not None and len(argl) != len(op.get('vs', op.get('other', []))):
+            inv = 'a list argument was modified by the call'
+        other = [await openl(x) for w, x in lists.items() if w != which]
+        out.append((res, await openl(s), list(tr), inv, other[0] if other else None))
         if stop_after is not None and k >= stop_after:
             break
     return out
@@ -618,6 +701,10 @@ def key_str(k):
 
 
 def op_line(op):
+    return ('@2 ' if op.get('on') == 2 else '') + _op_line(op)
+
+
+def _op_line(op):
     kind = op['op']
     if kind in ('get', 'del', 'pop'):
         return f'{kind} {key_str(op["key"])}'
@@ -644,30 +731,52 @@ def op_line(op):
 
 def history_lines(h):
     f = TYPES[h['type']][1]
-    return [f'new {f} {showl(h["init"])}'] + [op_line(op) for op in h['ops']]
+    head = [f'new {f} {showl(h["init"])}'] + ([f'new2 {showl(h["init2"])}'] if 'init2' in h else [])
+    return head + [op_line(op) for op in h['ops']]
 
 
 # ---------------------------------------------------------------------------------------------
 # checks
 # ---------------------------------------------------------------------------------------------
 def oracle_check(h, steps):
-    """compare the real run with the plain Python list; -> None or (step, message, expected, observed)"""
+    """compare the real run with plain Python lists; -> None or (step, message, expected, observed)"""
     f = TYPES[h['type']][1]
-    cur = list(h['init'])
-    for k, (op, (res, contents, _tr, inv)) in enumerate(zip(h['ops'], steps)):
+    curs = {1: list(h['init'])}
+    if 'init2' in h:
+        curs[2] = list(h['init2'])
+    for k, (op, (res, contents, _tr, inv, other)) in enumerate(zip(h['ops'], steps)):
+        w = op.get('on', 1)
+        cur = curs[w]
         if op.get('oob'):                 # outside the in-range guard: Python raises, oblivious code cannot
-            cur = list(contents)
+            curs[w] = list(contents)
             continue
         exp_res, exp_cur = py_apply(cur, op, f)
         if exp_res[0] == 'e' and op.get('expect_err') == 'ValueError' and res[0] == 'e':
             res = exp_res                 # the class of this error is not a Python-list matter
         exp, obs = fmt(exp_res, exp_cur), fmt(res, contents)
         if exp != obs:
-            return k, f'step {k} ({op_line(op)}) on {showl(cur)}: Python list gives {exp}, seclist gives {obs}', exp, obs
-        if not inv:
-            return k, f'step {k} ({op_line(op)}): seclist invariant broken (items not all of the list\'s sectype)', exp, obs
-        cur = exp_cur
+            reuse = ' [same index object as in the previous keyed operation]' if op.get('reuse') else ''
+            return k, f'step {k} ({op_line(op)}){reuse} on {showl(cur)}: Python list gives {exp}, seclist gives {obs}', exp, obs
+        if inv:
+            return k, f'step {k} ({op_line(op)}): {inv}', 'arguments and class invariant intact', inv
+        curs[w] = exp_cur
+        if other is not None and other != curs[3 - w]:
+            return (k, f'step {k} ({op_line(op)}) changed the OTHER list: {showl(other)} expected {showl(curs[3 - w])}',
+                    showl(curs[3 - w]), showl(other))
     return None
+
+
+def oracle_states(h):
+    """yield (op, list operated on before the op, expected result) along the Python-list run"""
+    f = TYPES[h['type']][1]
+    curs = {1: list(h['init'])}
+    if 'init2' in h:
+        curs[2] = list(h['init2'])
+    for op in h['ops']:
+        w = op.get('on', 1)
+        before = curs[w]
+        res, curs[w] = py_apply(before, op, f)
+        yield op, before, res, curs[w]
 
 
 def nontrivial(h):
@@ -676,8 +785,11 @@ def nontrivial(h):
 
 
 def replay_dict(h, m, seed, k, msg, exp, obs):
-    return {'kind': 'history', 'm': m, 'seed': seed, 'type': h['type'], 'init': h['init'],
-            'ops': h['ops'][:k + 1], 'step': k, 'expected': exp, 'observed': obs, 'what': msg}
+    d = {'kind': 'history', 'm': m, 'seed': seed, 'type': h['type'], 'init': h['init'],
+         'ops': h['ops'][:k + 1], 'step': k, 'expected': exp, 'observed': obs, 'what': msg}
+    if 'init2' in h:
+        d['init2'] = h['init2']
+    return d
 
 
 def shrink(h, m, seed, budget=40):
@@ -711,8 +823,7 @@ def shrink(h, m, seed, budget=40):
 def valid(h):
     """all secret keys denote in-range positions on the Python-list run (the property's guard)"""
     f = TYPES[h['type']][1]
-    cur = list(h['init'])
-    for op in h['ops']:
+    for op, cur, _res, _after in oracle_states(h):
         if 'key' in op and op['key'][0] != 'p' and not op.get('expect_err'):
             p = key_pos(op['key'], f)
             bound = len(cur) + (1 if op['op'] == 'insert' else 0)
@@ -721,9 +832,6 @@ def valid(h):
                 pass
             elif p is None or not 0 <= p < bound or (veclen is not None and veclen != bound):
                 return False
-        if op['op'] in ('index', 'remove', 'find', 'count', 'contains') and 'present' in op:
-            pass
-        _res, cur = py_apply(cur, op, f)
     return True
 
 
@@ -787,8 +895,8 @@ def check_batch(ctx, hs, m, seed, label, lines, impl, soft):
                 run_real([h], m, seed)
             except (PartyError, Deadlock) as exc2:
                 ctx.violation(f'{label}: run of a history failed: {str(exc2)[:300]}',
-                              {'kind': 'history', 'm': m, 'seed': seed, 'type': h['type'], 'init': h['init'],
-                               'ops': h['ops'], 'step': None, 'expected': 'run completes', 'observed': str(exc2)[:500]})
+                              dict(h, kind='history', m=m, seed=seed, step=None, expected='run completes',
+                                   observed=str(exc2)[:500]))
                 return None
         raise common.InfraError(f'{label}: batch run failed but no single history does: {exc}')
     for h, steps in zip(hs, results):
@@ -808,7 +916,12 @@ def check_batch(ctx, hs, m, seed, label, lines, impl, soft):
         lines.extend(hl)
         impl.append('R=none;S=' + showl(h['init']))
         soft.append(None)
-        for (res, contents, tr, _inv) in steps:
+        if 'init2' in h:
+            impl.append('R=none;S=' + showl(h['init2']))
+            soft.append(None)
+            ctx.count(f'{label}:two-lists')
+        ctx.count('op:index-object-reused', sum(1 for o in h['ops'] if o.get('reuse')))
+        for (res, contents, tr, _inv, _other) in steps:
             impl.append(fmt(res, contents))
             soft.append(','.join(tr) if tr else '-')
         # histories cut short by stop_after never occur here
@@ -832,7 +945,8 @@ def twins_check(ctx, rng, m, seed, count, max_ops):
             tname = rng.choice(list(TYPES))
             a = gen_history(rng.getrandbits(48), rng.getrandbits(48), tname, max_ops, present_only=(m > 1))
             b = rename_values(a, rng.getrandbits(32))
-        if [shape_of(o) for o in a['ops']] != [shape_of(o) for o in b['ops']] or len(a['init']) != len(b['init']):
+        if [shape_of(o) for o in a['ops']] != [shape_of(o) for o in b['ops']] or len(a['init']) != len(b['init']) \
+                or ('init2' in a) != ('init2' in b):
             ctx.count('twin:shape-diverged(skipped)')
             continue
         pa, pb = predicted_kinds(a), predicted_kinds(b)
@@ -867,20 +981,17 @@ def twins_check(ctx, rng, m, seed, count, max_ops):
 
 def predicted_kinds(h):
     """public outcomes of a history as predicted by the Python list: result kind per step and list lengths"""
-    f = TYPES[h['type']][1]
-    cur = list(h['init'])
     out = []
-    for op in h['ops']:
+    for op, _cur, res, after in oracle_states(h):
         if op.get('oob'):
             out.append('oob')
             if op['op'] != 'get' and op['key'] != ['u', 0, []]:
                 break
             continue
-        res, cur = py_apply(cur, op, f)
-        if res[0] == 'e' and op['op'] in ('index', 'remove') and cur:
+        if res[0] == 'e' and op['op'] in ('index', 'remove') and after:
             out.append('async-error')     # raised after an await inside an MPyC coroutine: lost when m > 1
         else:
-            out.append((res[0], res[1] if res[0] == 'e' else None, len(cur)))
+            out.append((res[0], res[1] if res[0] == 'e' else None, len(after)))
     return out
 
 
@@ -891,7 +1002,7 @@ def shape_of(op):
         k = op['key']
         d['key'] = (['p', k[1]] if k[0] == 'p' else ['s'] if k[0] == 's' else
                     ['u', k[1], len(k[2])] if k[0] == 'u' else ['l', len(k[1])])
-    for fld in ('sl', 'n', 'reverse', 'cmp', 'plain', 'expect_err', 'oob'):
+    for fld in ('sl', 'n', 'reverse', 'cmp', 'plain', 'expect_err', 'oob', 'on', 'reuse'):
         if fld in op:
             d[fld] = op[fld]
     for fld in ('vs', 'other'):
@@ -996,6 +1107,8 @@ def replay(ctx, data):
                 return False, 'wire write sequences of the twin histories differ'
             return True, 'ok'
         h = {'type': data['type'], 'init': data['init'], 'ops': data['ops']}
+        if 'init2' in data:
+            h['init2'] = data['init2']
         try:
             steps, _ = run_real([h], data.get('m', 1), data.get('seed', 0))
         except (PartyError, Deadlock) as exc:
